@@ -61,18 +61,29 @@ def check(F, rep):
     em = get_fn(F, rep, PS + "::emit_pending_resolve_requests")
     edu = defuse(em)
     dr = [(b, t) for b, t in em.calls() if call_matches(t, r"VecDeque::drain$") and recv_field(em, t["args"][0]) == "pending_resolve_requests"]
-    rep.exact("linear", "drain of the pending queue", len(dr), 1)
+    pf = [(b, t) for b, t in em.calls() if call_matches(t, r"VecDeque::(pop_front|pop_back)$") and recv_field(em, t["args"][0]) == "pending_resolve_requests"]
+    rep.exact("linear", "drain of the pending queue (drain(..) loop or pop loop)", len(dr) + len(pf), 1)
     es = [(b, t) for b, t in em.calls() if call_matches(t, SEND)]
     rep.exact("linear", "replies in emit_pending_resolve_requests", len(es), 1)
-    if dr and es:
-        nx = [(b, t) for b, t in find_calls(em, "core::iter::traits::iterator::Iterator::next") if dr[0][1]["dest"]["l"] in edu.closure(op_base(t["args"][0]))]
-        rep.exact("linear", "drain iterator next()", len(nx), 1)
+    if (dr or pf) and es:
+        if dr:
+            nx = [(b, t) for b, t in find_calls(em, "core::iter::traits::iterator::Iterator::next") if dr[0][1]["dest"]["l"] in edu.closure(op_base(t["args"][0]))]
+            rep.exact("linear", "drain iterator next()", len(nx), 1)
+            item_src = "Iterator::next"
+        else:
+            # `while let Some(tx) = queue.pop_front()`: the pop is the loop's element source and
+            # the loop only ends when it returns None (the queue is empty)
+            nx = pf
+            item_src = callee_names(pf[0][1])[0].rsplit("::", 1)[-1]
         if nx:
             nt, _ = call_result_tests(em, nx[0][0])
             s_ = copy_sources(em, op_base(es[0][1]["args"][0]))
-            rep.ob("linear", bool(s_) and all(x[0] == "call" and x[1].endswith("Iterator::next") for x in s_) and requires(em, es[0][0], nt), site(em, es[0][0]), "every drained sender is replied to", skey(F, em, "drained-replied"))
+            rep.ob("linear", bool(s_) and all(x[0] == "call" and x[1].endswith(item_src) for x in s_) and requires(em, es[0][0], nt), site(em, es[0][0]), "every drained sender is replied to", skey(F, em, "drained-replied"))
             some_t = {tg for t in nt for _, tg in t.success}
             rep.ob("linear", all(nx[0][0] not in em.reachable(tg, removed_blocks={es[0][0]}) for tg in some_t) and bool(some_t), site(em, es[0][0]), "no drained sender skips the reply", skey(F, em, "no-skip"))
+            if pf:
+                none_t = {tg for t in nt for _, tg in t.failure if em.blocks[tg]["t"]["k"] != "unreachable"}
+                rep.ob("linear", all(nx[0][0] in em.reachable(tg) for tg in some_t) and all(nx[0][0] not in em.reachable(tg) for tg in none_t), site(em, nx[0][0]), "the pop loop runs until the queue is empty", skey(F, em, "pop-until-empty"))
         ie = [(b, t) for b, t in em.calls() if call_matches(t, r"HashMap::is_empty$") and recv_field(em, t["args"][0]) == "paths"]
         rep.exact("reply", "paths.is_empty() in emit", len(ie), 1)
         if ie:
@@ -98,7 +109,7 @@ def check(F, rep):
         for cb, ct, ai in ref_consumers(f, s["lhs"]["l"]):
             if ai == 0:
                 n = callee_names(ct)[0].rsplit("::", 1)[-1]
-                ok = (f is rr and n == "push_back") or (f is em and n == "drain")
+                ok = (f is rr and n == "push_back") or (f is em and n in ("drain", "pop_front", "pop_back"))
                 rep.ob("who_writes", ok, site(f, cb), "pending_resolve_requests.%s in %s" % (n, source_fn(F, f)), skey(F, f, "queue-" + n))
     # who calls emit
     cs = call_sites(F, PS + "::emit_pending_resolve_requests", crates=["iroh"])
